@@ -13,6 +13,7 @@ import (
 	"image"
 	"image/jpeg"
 	"io/ioutil"
+	"math"
 	"net/http"
 	"os"
 	"reflect"
@@ -2448,6 +2449,10 @@ func (d *Data) ServeHTTP(uuid dvid.UUID, ctx *datastore.VersionedCtx, w http.Res
 		span, err := strconv.Atoi(parts[5])
 		if err != nil {
 			server.BadRequest(w, r, err)
+			return
+		}
+		if span < 1 || span > math.MaxInt32 {
+			server.BadRequest(w, r, "span of blocks must be between 1 and %d, not %d", math.MaxInt32, span)
 			return
 		}
 		if action == "get" {
